@@ -5,8 +5,13 @@ Domain : the real `BasicEmbeddingsIndex` with a deterministic fake embedding mod
          batching on/off, max_batch_size, max_batch_hold, cache configuration (off / in_memory or filesystem
          store x md5 or hash keys), the items indexed with add_item/add_items/build, a list of concurrent
          requests (arrival offset, operation, texts - duplicates and empty strings included) and the latency
-         of the i-th model call.
-Oracle : the fake model is a pure function `vec(text)` (sha256 -> 16 floats).  Every request must complete
+         of the i-th model call.  Two fifths of the cases have one or two FURTHER indexes in the same process
+         (same loop, same engine) with another embedding model - other vectors, for two of the models another
+         dimension, for the same texts - and mostly the very same cache configuration; their items are added
+         before / between / after those of the first index and their requests interleave with its requests.
+Oracle : every fake model is a pure function `vec(text, model)` (sha256 -> 16 floats for the first index's model;
+         sha512 of model name and text -> 8/16/24 floats for the others); per index: `vec(text, its model)`.
+         Every request must complete
          (no deadlock, no spinning, no exception - the model never raises), vectors handed back by
          `_batch_get_embeddings` / `_get_embeddings` must equal `vec(text)` per text in input order, the
          stored item embeddings must equal `vec(item.text)`, and the public `search(text)` must rank an item
@@ -35,7 +40,17 @@ RULE = (
     "_get_embeddings(list with duplicates/empty strings/empty list; in a fifth of the cases one list of 17-129 texts)), latency of the i-th model call in {0..1s}}; texts from a "
     "12-element pool (incl. '', unicode) plus generated ones. Run on a virtual-time loop; the fake model records every batch "
     "(texts, virtual start/end). A small grid of bursts (n simultaneous requests around max_batch_size x latency orders) is "
-    "enumerated. Non-trivial = at least two model calls in flight at the same time, or a request arrived while the batching "
+    "enumerated. In 2/5 of the generated cases 1-2 further indexes exist in the same process (key 'others'): embedding model drawn "
+    "from three other fake models of the same engine (different vectors for the same text; dimensions 8/16/24 against 16) or, "
+    "rarely, the same model; own batching parameters; cache configuration mostly identical to the first index's (in_memory "
+    "store_config is {} for every index; filesystem: own directory per index, shared only between indexes of the same model); "
+    "items from the same text pool, chunks of all indexes added in a drawn order (first index first / other first / "
+    "interleaved; build after an index's last chunk); every request carries the index it goes to, so requests of the other "
+    "indexes arrive before, between and after those of the first one and the same text is embedded through several models. "
+    "The oracle is per index (vector == that index's model(text), stored item embeddings, search rank, completion). A grid of "
+    "two-index cases (4 cache configurations x 3 other models x 3 set-up orders x batching) is enumerated. Module-level "
+    "containers of the embeddings modules are reset to their post-import content before every case. "
+    "Non-trivial = at least two model calls in flight at the same time, or a request arrived while the batching "
     "queue was full, or (cache on) a duplicate text inside one model batch / one list request; distinct by case hash."
 )
 ASSUMPTIONS = [
@@ -43,7 +58,13 @@ ASSUMPTIONS = [
     "items are added sequentially before the concurrent phase (concurrent add_items is not part of the statement)",
     "search() is only compared for query texts that are indexed (top result must carry the identical text); Annoy is exact at <= 15 items",
     "schedules are asyncio interleavings at the suspension points of the code (model call, hold timer, events); no OS threads",
-    "each case uses a fresh index and a fresh filesystem cache directory (no cross-case cache state)",
+    "each case uses fresh indexes and a fresh filesystem cache directory (no cross-case cache state); module-level containers "
+    "(dict/list/set) of nemoguardrails.embeddings.{cache,basic,providers} are put back to their content after import before "
+    "each case, so that a case replayed alone sees what it saw in the run",
+    "several indexes in one process: each must get its own model's vectors whatever the others do; a persistent (filesystem) "
+    "cache directory is never shared by indexes with DIFFERENT models (keys are derived from the text only - pointing two "
+    "models at one directory is a configuration the statement does not cover); the in_memory store is configured identically "
+    "({}) for every index and must still not leak vectors between indexes",
 ]
 ENGINE = "verif_fake_c19"
 DIM = 16
@@ -69,9 +90,18 @@ def budget(tier):
 # the reference: what the model gives for a text
 
 
-def vec(text):
-    d = hashlib.sha256(text.encode("utf-8", "surrogatepass")).digest()
-    return [((d[2 * i] << 8 | d[2 * i + 1]) - 32767.5) / 65536.0 for i in range(DIM)]
+# the fake embedding models of the engine: name -> dimension.  "fake" is the model of the first index; the others
+# give DIFFERENT vectors for the same text (the model name is part of the hashed input), two of them with another
+# dimension as well
+MODELS = {"fake": DIM, "fake-b": 8, "fake-c": 16, "fake-d": 24}
+
+
+def vec(text, model="fake"):
+    if model == "fake":
+        d = hashlib.sha256(text.encode("utf-8", "surrogatepass")).digest()
+    else:
+        d = hashlib.sha512(model.encode() + b"\0" + text.encode("utf-8", "surrogatepass")).digest()
+    return [((d[2 * i] << 8 | d[2 * i + 1]) - 32767.5) / 65536.0 for i in range(MODELS[model])]
 
 
 # ---------------------------------------------------------------------------------------------
@@ -104,6 +134,26 @@ class _Ctx:
 
 _CTX = None
 _registered = False
+_GLOBALS = []  # (container living at module level of the embeddings package, copy of its content after import)
+
+
+def _snapshot_globals():
+    """Cases must not see each other: whatever the embeddings modules keep in module-level containers (the
+    singleton cache of the models, registries, ...) is put back to its content after import before every case, so
+    that a case - also one replayed alone - only sees the indexes it creates itself."""
+    import sys
+
+    for name in ("nemoguardrails.embeddings.cache", "nemoguardrails.embeddings.basic", "nemoguardrails.embeddings.providers"):
+        for obj in vars(sys.modules[name]).values():
+            if type(obj) in (dict, list, set) and not any(obj is o for o, _ in _GLOBALS):
+                _GLOBALS.append((obj, type(obj)(obj)))
+
+
+def _restore_globals():
+    for obj, content in _GLOBALS:
+        if obj != content:
+            obj.clear()
+            (obj.extend if isinstance(obj, list) else obj.update)(content)
 
 
 def _register():
@@ -122,18 +172,20 @@ def _register():
 
         def __init__(self, embedding_model=None, **kwargs):
             self.model = embedding_model
-            self.embedding_size = DIM
+            self.embedding_size = MODELS[embedding_model]
 
         async def encode_async(self, documents):
             rec, lat = _CTX.begin(documents)
+            rec["model"] = self.model
             await asyncio.sleep(lat)
             _CTX.end(rec)
-            return [vec(t) for t in rec["texts"]]
+            return [vec(t, self.model) for t in rec["texts"]]
 
         def encode(self, documents):
-            return [vec(t) for t in documents]
+            return [vec(t, self.model) for t in documents]
 
     register_embedding_provider(FakeModel, ENGINE)
+    _snapshot_globals()
     _registered = True
 
 
@@ -159,32 +211,59 @@ def _case(draw):
     k = draw(st.integers(1, len(pool)))
     texts = draw(st.lists(st.sampled_from(pool), min_size=k, max_size=k))
     text = st.sampled_from(texts)
-    items = draw(st.lists(st.lists(text, min_size=1, max_size=5), min_size=1, max_size=3))
-    indexed = [t for chunk in items for t in chunk]
-    qtext = st.one_of(st.sampled_from(indexed), st.sampled_from(indexed), text)
-    if use_batching:
-        op = st.sampled_from(["search"] * 5 + ["embed"] * 5 + ["list"] * 2)
-    else:
-        op = st.sampled_from(["search"] * 4 + ["embed"] * 2 + ["list"] * 5)
+    chunks = st.lists(st.lists(text, min_size=1, max_size=5), min_size=1, max_size=3)
+    items = draw(chunks)
+    # further indexes living in the same process (same loop, same engine) with ANOTHER embedding model: other
+    # vectors - and for two of the models another dimension - for the same texts; mostly with the very same cache
+    # configuration as the first index.  Their items are added before / between / after the items of the first
+    # index (setup_order) and their requests arrive interleaved with the requests of the first index.
+    others = []
+    if draw(st.integers(0, 4)) < 2:
+        for _ in range(draw(st.sampled_from([1, 1, 1, 2]))):
+            others.append(
+                {
+                    "model": draw(st.sampled_from(["fake-b", "fake-b", "fake-c", "fake-c", "fake-d", "fake"])),
+                    "use_batching": draw(st.booleans()),
+                    "max_batch_size": draw(st.sampled_from([1, 2, 3, mbs, 10])),
+                    "max_batch_hold": draw(st.sampled_from(HOLDS)),
+                    "cache": draw(st.sampled_from([cache] * 3 + CACHES[1:])) if cache else draw(st.sampled_from(CACHES + CACHES[1:])),
+                    "share_cache_dir": draw(st.booleans()),
+                    "items": draw(chunks),
+                }
+            )
+    all_items = [items] + [o["items"] for o in others]
+    indexed = [[t for chunk in its for t in chunk] for its in all_items]
+    qtext = [st.one_of(st.sampled_from(ind), st.sampled_from(ind), text) for ind in indexed]
+    which = st.sampled_from([0, 0] + list(range(len(all_items))))
+    batching = [use_batching] + [o["use_batching"] for o in others]
+    op_b = st.sampled_from(["search"] * 5 + ["embed"] * 5 + ["list"] * 2)
+    op_nb = st.sampled_from(["search"] * 4 + ["embed"] * 2 + ["list"] * 5)
     requests = []
     for _ in range(draw(st.integers(1, 8))):
         at = draw(st.one_of(st.sampled_from(OFFSETS), st.sampled_from(OFFSETS), st.floats(0, 1.2).map(lambda x: round(x, 4))))
         burst = draw(st.sampled_from([1, 1, 2, 3, mbs, mbs + 1, 2 * mbs + 1, 14]))
         for _ in range(burst):
-            o = draw(op)
+            ix = draw(which) if others else 0
+            o = draw(op_b if batching[ix] else op_nb)
             if o == "list":
                 ts = draw(st.lists(text, min_size=0 if draw(st.integers(0, 9)) == 0 else 1, max_size=6))
             else:
-                ts = [draw(qtext)]
-            requests.append({"at": at, "op": o, "texts": ts})
+                ts = [draw(qtext[ix])]
+            req = {"at": at, "op": o, "texts": ts}
+            if ix:
+                req["ix"] = ix
+            requests.append(req)
     requests = requests[:40]
     if draw(st.integers(0, 4)) == 0:
         # one long list request (size-dependent paths: chunking, paging): many distinct texts with a few duplicates
         n = draw(st.sampled_from([17, 31, 32, 33, 40, 64, 65, 100, 129]))
         m = draw(st.sampled_from([n, n, n - 3, max(2, n // 2)]))
-        requests.insert(draw(st.integers(0, len(requests))), {"at": draw(st.sampled_from(OFFSETS)), "op": "list", "texts": [f"long text {j % m}" for j in range(n)]})
+        req = {"at": draw(st.sampled_from(OFFSETS)), "op": "list", "texts": [f"long text {j % m}" for j in range(n)]}
+        if others and draw(st.booleans()):
+            req["ix"] = draw(st.integers(1, len(others)))
+        requests.insert(draw(st.integers(0, len(requests))), req)
     latencies = draw(st.lists(st.sampled_from(LATENCIES), min_size=1, max_size=6))
-    return {
+    case = {
         "use_batching": use_batching,
         "max_batch_size": mbs,
         "max_batch_hold": hold,
@@ -193,6 +272,12 @@ def _case(draw):
         "requests": requests,
         "latencies": latencies,
     }
+    if others:
+        case["others"] = others
+        # whose chunk of items is added next (an index is built right after its last chunk)
+        owners = [k for k, its in enumerate(all_items) for _ in its]
+        case["setup_order"] = draw(st.one_of(st.just(sorted(owners)), st.just(sorted(owners, reverse=True)), st.permutations(owners)))
+    return case
 
 
 def strategy(tier):
@@ -229,6 +314,32 @@ def enumerate_cases(tier):
                 "requests": [{"at": 0, "op": "list", "texts": ts}, {"at": 0, "op": "list", "texts": list(reversed(ts))}],
                 "latencies": [0, 0.01, 0],
             }
+    # two indexes with different embedding models and the same cache configuration working on the same texts:
+    # set-up order x other model x (batching) x cache; every operation on both indexes, alternating in time
+    for cache in CACHES[1:]:
+        for model in ("fake-b", "fake-c", "fake-d"):
+            for order in ([0, 0, 1, 1], [1, 1, 0, 0], [0, 1, 1, 0]):
+                for batching in (False, True):
+                    requests = []
+                    for j, (op, ts) in enumerate((("search", ["a"]), ("embed", ["zz"]), ("list", ["b", "zz", ""]), ("search", ["ab"]), ("embed", ["a"]))):
+                        for ix in (0, 1) if j % 2 == 0 else (1, 0):
+                            req = {"at": 0.1 * j, "op": op, "texts": ts}
+                            if ix:
+                                req["ix"] = ix
+                            requests.append(req)
+                    yield {
+                        "use_batching": batching,
+                        "max_batch_size": 2,
+                        "max_batch_hold": 0.01,
+                        "cache": cache,
+                        "items": [["a", "b"], ["ab"]],
+                        "others": [
+                            {"model": model, "use_batching": batching, "max_batch_size": 2, "max_batch_hold": 0.01, "cache": cache, "share_cache_dir": False, "items": [["b", "a"], ["ab", ""]]}
+                        ],
+                        "setup_order": order,
+                        "requests": requests,
+                        "latencies": [0, 0.01, 0],
+                    }
 
 
 # ---------------------------------------------------------------------------------------------
@@ -265,24 +376,54 @@ async def _request(index, i, req, out, flags):
     flags["done_at"][i] = asyncio.get_running_loop().time()
 
 
-async def _main(index, case, out, flags):
+def _specs(case):
+    """The indexes of a case: the first one (top-level keys, model "fake") and the optional further ones."""
+    first = {k: case[k] for k in ("use_batching", "max_batch_size", "max_batch_hold", "cache", "items")}
+    first["model"] = "fake"
+    return [first] + list(case.get("others") or [])
+
+
+async def _main(indexes, specs, case, out, flags):
     from nemoguardrails.embeddings.index import IndexItem
 
-    for chunk in case["items"]:
+    order = case.get("setup_order") or [k for k, s in enumerate(specs) for _ in s["items"]]
+    nxt = [0] * len(specs)
+    for k in order:
+        index, chunk = indexes[k], specs[k]["items"][nxt[k]]
+        nxt[k] += 1
+        flags["added"][k].extend(chunk)
         if len(chunk) == 1:
             await index.add_item(IndexItem(text=chunk[0], meta={"n": 0}))
         else:
             await index.add_items([IndexItem(text=t, meta={"n": j}) for j, t in enumerate(chunk)])
-    await index.build()
+        if nxt[k] == len(specs[k]["items"]):
+            await index.build()
     flags["setup_calls"] = len(_CTX.calls)
     flags["stage"] = "requests"
-    tasks = [asyncio.ensure_future(_request(index, i, r, out, flags)) for i, r in enumerate(case["requests"])]
+    tasks = [asyncio.ensure_future(_request(indexes[r.get("ix", 0)], i, r, out, flags)) for i, r in enumerate(case["requests"])]
     await asyncio.gather(*tasks)
     flags["stage"] = "drain"
-    # let cancelled helper tasks unwind and every timer the index may still own expire
-    await asyncio.sleep(case["max_batch_hold"] + max(case["latencies"]) + 1.0)
+    # let cancelled helper tasks unwind and every timer the indexes may still own expire
+    await asyncio.sleep(max(s["max_batch_hold"] for s in specs) + max(case["latencies"]) + 1.0)
     me = asyncio.current_task()
     flags["left"] = [repr(t.get_coro()) for t in asyncio.all_tasks() if t is not me and not t.done()]
+
+
+def _check_items(indexes, specs, flags, cfgs, partial=False):
+    """stored item embeddings belong to their items (for the items handed to add_item/add_items so far; `partial`:
+    after an exception during the set-up only the embeddings that were stored are compared)"""
+    for k, index in enumerate(indexes):
+        stored = [list(map(float, e)) for e in index._embeddings]
+        added = flags["added"][k][: len(stored)] if partial else flags["added"][k]
+        exp = [vec(t, specs[k]["model"]) for t in added]
+        if stored != exp:
+            bad = [i for i, t in enumerate(added) if i >= len(stored) or stored[i] != exp[i]]
+            dims = sorted({len(e) for e in stored})
+            raise Violation(
+                "item-embedding",
+                f"{cfgs[k]}: items {added!r}: stored embedding of item(s) {bad} is not the model's vector"
+                + (f" (stored dimensions {dims}, the model's is {MODELS[specs[k]['model']]})" if dims != [MODELS[specs[k]["model"]]] else ""),
+            )
 
 
 def prop(case):
@@ -291,37 +432,50 @@ def prop(case):
     from nemoguardrails.embeddings import providers
     from nemoguardrails.embeddings.basic import BasicEmbeddingsIndex
 
+    _restore_globals()
+    specs = _specs(case)
+    multi = len(specs) > 1
     tmp = None
-    cache = case["cache"]
-    if cache is None:
-        cache_config = None
-    else:
-        store_config = {}
-        if cache["store"] == "filesystem":
-            tmp = tempfile.mkdtemp(prefix="vf-c19-")
-            store_config = {"cache_dir": os.path.join(tmp, "emb")}
-        cache_config = {"enabled": True, "key_generator": cache["key"], "store": cache["store"], "store_config": store_config}
+    cache_configs, cfgs = [], []
+    for k, s in enumerate(specs):
+        cache = s["cache"]
+        if cache is None:
+            cache_configs.append(None)
+        else:
+            store_config = {}
+            if cache["store"] == "filesystem":
+                tmp = tmp or tempfile.mkdtemp(prefix="vf-c19-")
+                # every index has its own cache directory; only an index with the model of the first one may share
+                # the first one's directory (a persistent store shared by two different models is not generated)
+                own = not (k and s.get("share_cache_dir") and s["model"] == "fake" and (specs[0]["cache"] or {}).get("store") == "filesystem")
+                store_config = {"cache_dir": os.path.join(tmp, f"emb{k}" if own and k else "emb")}
+            cache_configs.append({"enabled": True, "key_generator": cache["key"], "store": cache["store"], "store_config": store_config})
+        cfgs.append(
+            (f"index #{k} model={s['model']} " if multi else "")
+            + f"batching={s['use_batching']} max_batch_size={s['max_batch_size']} hold={s['max_batch_hold']} "
+            f"cache={cache and cache['store'] + '/' + cache['key']} latencies={case['latencies']}"
+        )
+    cfg = cfgs[0]
     _CTX = _Ctx(case["latencies"])
     loop = vclock.VirtualLoop(max_steps=MAX_STEPS)
     asyncio.set_event_loop(loop)
-    out, flags = {}, {"queue_full_arrivals": 0, "done_at": {}, "stage": "setup", "left": []}
-    cfg = (
-        f"batching={case['use_batching']} max_batch_size={case['max_batch_size']} hold={case['max_batch_hold']} "
-        f"cache={cache and cache['store'] + '/' + cache['key']} latencies={case['latencies']}"
-    )
+    out, flags = {}, {"queue_full_arrivals": 0, "done_at": {}, "stage": "setup", "left": [], "added": [[] for _ in specs]}
     interrupted = True
     try:
-        index = BasicEmbeddingsIndex(
-            embedding_model="fake",
-            embedding_engine=ENGINE,
-            cache_config=cache_config,
-            use_batching=case["use_batching"],
-            max_batch_size=case["max_batch_size"],
-            max_batch_hold=case["max_batch_hold"],
-        )
+        indexes = [
+            BasicEmbeddingsIndex(
+                embedding_model=s["model"],
+                embedding_engine=ENGINE,
+                cache_config=cache_configs[k],
+                use_batching=s["use_batching"],
+                max_batch_size=s["max_batch_size"],
+                max_batch_hold=s["max_batch_hold"],
+            )
+            for k, s in enumerate(specs)
+        ]
         try:
             with loop.alarm_relay():
-                loop.run_until_complete(_main(index, case, out, flags))
+                loop.run_until_complete(_main(indexes, specs, case, out, flags))
             interrupted = False
         except vclock.VirtualTimeError as e:
             interrupted = False
@@ -334,30 +488,36 @@ def prop(case):
                 f"{cfg}: requests {missing[:8]} of {len(case['requests'])} never completed "
                 f"(first: {case['requests'][missing[0]] if missing else None}); {e}",
             )
+        except Exception:
+            interrupted = False
+            if flags["stage"] == "setup":
+                # add_item/add_items/build broke: a violation only if an embedding stored so far is not the model's
+                # vector (e.g. build() refusing vectors of mixed dimensions); anything else is the harness' fault
+                _check_items(indexes, specs, flags, cfgs, partial=True)
+            raise
         calls = _CTX.calls
-        # items: stored embeddings belong to their items
-        indexed = [t for chunk in case["items"] for t in chunk]
-        stored = [list(map(float, e)) for e in index._embeddings]
-        if stored != [vec(t) for t in indexed]:
-            bad = [i for i, t in enumerate(indexed) if i >= len(stored) or stored[i] != vec(t)]
-            raise Violation("item-embedding", f"{cfg}: items {indexed!r}: stored embedding of item(s) {bad} is not the model's vector")
+        _check_items(indexes, specs, flags, cfgs)
+        all_texts = sorted({t for s in specs for chunk in s["items"] for t in chunk} | {x for r in case["requests"] for x in r["texts"]})
         for i, req in enumerate(case["requests"]):
             kind, val = out[i]
-            what = f"{cfg}: request #{i} {req['op']}({req['texts']!r}) at t+{req['at']}"
+            k = req.get("ix", 0)
+            model = specs[k]["model"]
+            indexed = flags["added"][k]
+            what = f"{cfgs[k]}: request #{i} {req['op']}({req['texts']!r}) at t+{req['at']}"
             if kind == "raised":
                 raise Violation("request-raised", f"{what} did not complete: {val}")
             if kind == "vec":
-                exp = [vec(t) for t in req["texts"]]
+                exp = [vec(t, model) for t in req["texts"]]
                 got = val
                 if not isinstance(got, list) or len(got) != len(exp):
                     raise Violation("wrong-count", f"{what}: {len(exp)} texts but {len(got) if isinstance(got, list) else got!r} results")
                 for j, (g, e) in enumerate(zip(got, exp)):
                     if g is None or list(g) != e:
-                        owner = [t for t in sorted(set(indexed + [x for r in case["requests"] for x in r["texts"]])) if g is not None and list(g) == vec(t)]
+                        owner = [(t, m) for m in sorted({s["model"] for s in specs}) for t in all_texts if g is not None and list(g) == vec(t, m)]
                         raise Violation(
                             "wrong-embedding",
                             f"{what}: result {j} for text {req['texts'][j]!r} is "
-                            + (f"the embedding of {owner[0]!r}" if owner else f"{g!r:.80}")
+                            + (f"the embedding of {owner[0][0]!r}" + (f" by model {owner[0][1]!r}" if multi else "") if owner else f"{g!r:.80}")
                             + "; model batches: "
                             + repr([c["texts"] for c in calls[flags["setup_calls"]:]])[:300],
                         )
@@ -376,10 +536,12 @@ def prop(case):
         # yielding would hang the clean-up
         loop.shutdown(run_cancelled=not interrupted)
         asyncio.set_event_loop(None)
-        providers._embedding_model_cache.pop(f"{ENGINE}-fake", None)
+        for m in MODELS:
+            providers._embedding_model_cache.pop(f"{ENGINE}-{m}", None)
         if tmp:
             shutil.rmtree(tmp, ignore_errors=True)
 
+    cache = case["cache"]
     req_calls = calls[flags["setup_calls"]:]
     inflight = 0
     events = sorted([(c["s0"], 1) for c in req_calls] + [(c["s1"], -1) for c in req_calls])
@@ -387,9 +549,9 @@ def prop(case):
     for _, d in events:
         cur += d
         inflight = max(inflight, cur)
-    dup_batch = bool(cache) and (
-        any(len(set(c["texts"])) < len(c["texts"]) for c in calls)
-        or any(r["op"] == "list" and len(set(r["texts"])) < len(r["texts"]) for r in case["requests"])
+    dup_batch = any(s["cache"] for s in specs) and (
+        any(len(set(c["texts"])) < len(c["texts"]) and any(s["cache"] for s in specs if s["model"] == c["model"]) for c in calls)
+        or any(r["op"] == "list" and len(set(r["texts"])) < len(r["texts"]) and specs[r.get("ix", 0)]["cache"] for r in case["requests"])
     )
     qfull = flags["queue_full_arrivals"] > 0
     nt = inflight >= 2 or qfull or dup_batch
@@ -418,13 +580,43 @@ def prop(case):
         labels.append("out-of-order-completion")
     if any(len(r["texts"]) > 16 for r in case["requests"]):
         labels.append("long-list-request")
+    if multi:
+        labels.append(f"indexes:{len(specs)}")
+        # what each index embedded (items and requests), to see how often two models met on the same text / cache
+        seen = [set(flags["added"][k]) for k in range(len(specs))]
+        for r in case["requests"]:
+            seen[r.get("ix", 0)].update(r["texts"])
+        pairs = [(a, b) for a in range(len(specs)) for b in range(a + 1, len(specs)) if specs[a]["model"] != specs[b]["model"]]
+        if pairs:
+            labels.append("other-model")
+        if any(MODELS[specs[a]["model"]] != MODELS[specs[b]["model"]] for a, b in pairs):
+            labels.append("other-model:other-dimension")
+        same_text = [(a, b) for a, b in pairs if seen[a] & seen[b]]
+        if same_text:
+            labels.append("same-text-two-models")
+        for store in ("in_memory", "filesystem"):
+            if any(specs[a]["cache"] and specs[a]["cache"] == specs[b]["cache"] and specs[a]["cache"]["store"] == store for a, b in same_text):
+                labels.append(f"same-text-two-models+same-cache-config:{store}")
+        order = case.get("setup_order") or []
+        if order and order[0] != 0:
+            labels.append("other-index-set-up-first")
+        if order and order != sorted(order) and order != sorted(order, reverse=True):
+            labels.append("setup-interleaved")
+        ixs = [r.get("ix", 0) for r in sorted(case["requests"], key=lambda r: r["at"])]
+        if 0 in ixs and any(ixs[ixs.index(0) : len(ixs) - ixs[::-1].index(0)]):
+            labels.append("other-index-request-between-first-index-requests")
+        if any(c.get("model") != req_calls[0].get("model") for c in req_calls):
+            labels.append("model-calls-of-two-models")
     view = {
         "config": cfg,
         "items": case["items"],
-        "requests": [f"t+{r['at']} {r['op']} {r['texts']!r}" for r in case["requests"][:12]],
+        "requests": [f"t+{r['at']} {r['op']} {r['texts']!r}" + (f" @index#{r['ix']}" if r.get("ix") else "") for r in case["requests"][:12]],
         "model_batches": [{"texts": c["texts"], "t0": c["t0"], "t1": c["t1"]} for c in req_calls[:10]],
         "max_in_flight": inflight,
         "queue_full_arrivals": flags["queue_full_arrivals"],
         "loop_iterations": loop.steps,
     }
+    if multi:
+        view["other_indexes"] = [{"config": cfgs[k], "items": specs[k]["items"]} for k in range(1, len(specs))]
+        view["setup_order"] = case.get("setup_order")
     return ok(nt=nt, labels=labels, view=view, counters={"model_calls": len(calls), "requests": n, "loop_iterations": loop.steps})
